@@ -29,7 +29,17 @@ import (
 
 type RNG struct{ s uint64 }
 
-func NewRNG(seed uint64) *RNG { return &RNG{s: seed*0x9E3779B97F4A7C15 + 0x1234567} }
+// NewRNG hashes the seed first: splitmix64 states for seed and seed+1 would otherwise be the same
+// stream shifted by one output, and VERIF_SEED=1..n would explore nearly identical cases.
+func NewRNG(seed uint64) *RNG {
+	z := seed + 0x9E3779B97F4A7C15
+	z = (z ^ (z >> 30)) * 0xBF58476D1CE4E5B9
+	z = (z ^ (z >> 27)) * 0x94D049BB133111EB
+	z ^= z >> 31
+	z = (z ^ (z >> 33)) * 0xFF51AFD7ED558CCD
+	z ^= z >> 33
+	return &RNG{s: z}
+}
 
 func (r *RNG) U64() uint64 {
 	r.s += 0x9E3779B97F4A7C15
